@@ -8,7 +8,7 @@
   Breaks when: the character range, the emptiness test, the separator or the
   trimming of the line terminator change.
 -/
-import Proofs.GoTieMisc
+import Proofs.GoTieFmtStr
 import Proofs.GoTieFormat
 import Proofs.GoTieMarshal
 namespace AgeModel
